@@ -204,10 +204,11 @@ class UnitsSerializer(Serializer):
             matched_regex = self.regex_for_serialized.fullmatch(data)
             if matched_regex:
                 data = matched_regex.group(1)
-            if data.startswith('nan'):
+            if data == 'nan' or data.startswith('nan '):
                 # str() of a nan quantity is 'nan <units>'; for units such
                 # as 1 / second it is 'nan / second', so parse the units
-                # with a magnitude of 1 in place of the nan.
+                # with a magnitude of 1 in place of the nan. Units whose
+                # names merely start with 'nan' (nanometer) are not nan.
                 unit_str = '1' + data[len('nan'):]
                 unit_data = math.nan * units(unit_str)
             else:
